@@ -164,7 +164,10 @@ where
                             } else {
                                 let mut current_param = match current.parse::<u64>() {
                                     Ok(val) => val,
-                                    _ => 0,
+                                    // Only digits get here: empty means 0, a
+                                    // failure to parse means more than u64 holds.
+                                    _ if current.is_empty() => 0,
+                                    _ => u64::MAX,
                                 };
                                 current_param = u64::min(current_param, 9999);
                                 params.push(current_param as u32);
@@ -298,7 +301,10 @@ where
                             } else {
                                 let mut current_param = match current.parse::<u64>() {
                                     Ok(val) => val,
-                                    _ => 0,
+                                    // Only digits get here: empty means 0, a
+                                    // failure to parse means more than u64 holds.
+                                    _ if current.is_empty() => 0,
+                                    _ => u64::MAX,
                                 };
                                 current_param = u64::min(current_param, 9999);
                                 params.push(current_param as u32);
